@@ -169,7 +169,7 @@ func (c *Ctx) packedType(v ssa.Value) (string, *ssa.Call) {
 	if callee.Signature.Recv() != nil && callee.Name() == "Pack" {
 		return typeName(callee.Signature.Recv().Type()), call
 	}
-	if callee.Name() == "pack" && callee.Signature.Recv() == nil {
+	if callee == c.Func("pack") {
 		return "pack", call
 	}
 	return "", call
